@@ -1,10 +1,11 @@
 -------------------------------- MODULE Trace --------------------------------
 (* Trace validation: the NDJSON file written by the harness (one step per line, traces
    concatenated, each starting with an "Init" line that carries the instance's surface
-   and probe lists) must be a behaviour of MessageLog.  The call arguments are bound from
+   and probe lists) must be a behaviour of MessageLog with the exact-proposal
+   path (MessageLogX).  The call arguments are bound from
    the log; reply and projection are then determined by the specification and compared in
    the invariant Conform, so a divergence is reported with the expected values. *)
-EXTENDS MessageLog, Json
+EXTENDS MessageLogX, Json
 VARIABLE l
 
 Log == ndJsonDeserialize("trace.ndjson")
@@ -12,8 +13,9 @@ Log == ndJsonDeserialize("trace.ndjson")
 TraceProbeIds   == << 1 >>
 TraceProbeFroms == << "u1" >>
 TraceProbeNos   == << "n1" >>
+TraceProbePids  == << 1 >>
 
-TraceInit == Init /\ l = 1
+TraceInit == InitX /\ l = 1
 
 Reset0 ==
   /\ rows'  = [c \in Chans |-> Empty]
@@ -26,32 +28,37 @@ Reset0 ==
   /\ mem'   = [c \in Chans |-> NoMem]
   /\ open'  = [c \in Chans |-> 0]
   /\ dbOpen' = TRUE
+  /\ ident' = [c \in Chans |-> Empty]
+  /\ prop'  = [c \in Chans |-> Empty]
   /\ cfg' = Log[l].ev.cfg
   /\ ev' = Log[l].ev
 
+
 Step(e) ==
   CASE e.a = "Init"       -> Reset0
-    [] e.a = "Append"     -> DoAppend(e.c, e.mode, e.base, e.recs)
-    [] e.a = "Apply"      -> DoApply(e.c, e.mode, e.base, e.recs, e.hw)
-    [] e.a = "Truncate"   -> Truncate(e.c, e.to)
-    [] e.a = "Adopt"      -> Adopt(e.c, e.through)
-    [] e.a = "Trim"       -> Trim(e.c, e.through, e.lim)
-    [] e.a = "Ckpt"       -> Ckpt(e.c, e.hw)
-    [] e.a = "CkptMono"   -> CkptMono(e.c, e.hw)
-    [] e.a = "OpenLease"  -> OpenLease(e.c)
-    [] e.a = "CloseLease" -> CloseLease(e.c)
-    [] e.a = "CloseDB"    -> CloseDB
-    [] e.a = "OpenDB"     -> OpenDB
+    [] e.a = "Append"     -> XAppend(e.c, e.mode, e.base, e.recs)
+    [] e.a = "Apply"      -> XApply(e.c, e.mode, e.base, e.recs, e.hw)
+    [] e.a = "Truncate"   -> XTruncate(e.c, e.to)
+    [] e.a = "Adopt"      -> XAdopt(e.c, e.through)
+    [] e.a = "Trim"       -> XTrim(e.c, e.through, e.lim)
+    [] e.a = "Ckpt"       -> XCkpt(e.c, e.hw)
+    [] e.a = "CkptMono"   -> XCkptMono(e.c, e.hw)
+    [] e.a = "OpenLease"  -> XOpenLease(e.c)
+    [] e.a = "CloseLease" -> XCloseLease(e.c)
+    [] e.a = "CloseDB"    -> XCloseDB
+    [] e.a = "OpenDB"     -> XOpenDB
+    [] e.a = "ExAppend"   -> ExAppend(e.c, e.pid, e.b, e.recs, e.mode, e.hw)
+    [] e.a = "Replace"    -> Replace(e.c, e.keep, e.ps, e.hw)
 
 TraceNext == l <= Len(Log) /\ l' = l + 1 /\ Step(Log[l].ev)
 
-TraceSpec == TraceInit /\ [][TraceNext]_<<vars, l>>
+TraceSpec == TraceInit /\ [][TraceNext]_<<xvars, l>>
 
 \* Deterministic step: the logged reply and projection must be the specification's.
 Conform ==
   l > 1 /\ Log[l - 1].ev.a # "Init" =>
     /\ ev.res = Log[l - 1].ev.res
-    /\ Proj = Log[l - 1].st
+    /\ ProjX = Log[l - 1].st
 
 \* Acceptance: every line was consumed.
 HW       == TLCSet(1, IF l > TLCGet(1) THEN l ELSE TLCGet(1))
